@@ -18,3 +18,21 @@ package mock
 //@       ghost.handled == old(ghost.handled) && err == core.ErrRequestEntityTooLarge && response == nil
 //@   ensures [within_limit_is_processed_once_unless_the_address_is_bad] ghost.handled <= old(ghost.handled) + 1
 //@   ensures [processed_request_is_the_submitted_one] ghost.handled == old(ghost.handled) + 1 ==> same(ghost.handled_req, request)
+
+// ---- the in-process client transport (C10) ---------------------------------------------------------
+// the worker delivers exactly one outcome on a channel with room for it (it never blocks, so it
+// cannot leak) and closes the channel; the caller waits on the call's context as well
+//@ func (*agent).Handler
+//@   havoc
+//@   modifies ghost.*
+
+//@ func (*Transport).Transport$1
+//@   prop C10
+//@   havoc
+//@   stable ch
+//@   modifies ghost.*
+//@   ensures [delivers_exactly_one_outcome] ghost.chansent[ch] == old(ghost.chansent[ch]) + 1
+//@   ensures [closes_the_channel] ghost.chanclosed[ch] == 1
+
+//@ rule closure_immutable (*Transport).Transport$1 prop=C10
+//@ rule select_arms (*Transport).Transport done=1 prop=C10
